@@ -1194,7 +1194,7 @@ import re
 import platform as _platform
 
 _PURE_FUNCS = {_platform.python_implementation, _platform.system, pathlib.Path, pathlib.PurePosixPath, pathlib.PurePath, pathlib.PosixPath, os.fspath, os.path.join,
-               os.path.basename, os.path.dirname, re.match, re.compile, os.path.splitext, os.path.isabs, os.path.normpath, posixpath.join,
+               os.path.basename, os.path.dirname, os.path.commonprefix, os.path.commonpath, os.path.relpath, re.match, re.compile, os.path.splitext, os.path.isabs, os.path.normpath, posixpath.join,
                str.startswith, str.endswith}
 _PURE_PATH_METHODS = {"as_posix", "joinpath", "is_absolute", "relative_to", "with_name", "with_suffix", "__str__",
                       "__truediv__", "__fspath__", "match", "is_relative_to"}
